@@ -180,6 +180,11 @@ def rule_r2(prog, res) -> None:
             if op not in ("send", "recv", "isend", "irecv"):
                 continue
             t = kwarg(c, "tag")
+            if isinstance(t, ast.Name):
+                # a module-level constant (e.g. _TAG_TASK = 1)
+                vals = [g.value for g in prog.lookup(fi.module, t.id, fi.variant) if getattr(g, "kind", "") == "global" and isinstance(g.value, ast.Constant)]
+                if len(vals) == 1:
+                    t = vals[0]
             tag = t.value if isinstance(t, ast.Constant) else ("?" if t is not None else 0)
             (sends if "send" in op else recvs).setdefault((k, tag), []).append((fi, c))
             res.touch(fi)
@@ -199,14 +204,21 @@ def rule_r2(prog, res) -> None:
     wt = prog.func("_mpi_worker_task")
     res.touch(wt)
     cfg = cfg_of(wt.node)
-    loop_tests = [t for t in cfg.nodes if t.kind == "test" and "recv" in unparse(t.expr)]
-    sn = [n for n in cfg.nodes if any(op == "send" for c, op, k in _mpi_calls(prog, wt) if any(x is c for x in ast.walk(n.expr or ast.Pass())))]
-    if loop_tests and sn:
-        t = loop_tests[0]
-        body = [cfg.nodes[j] for j, lab in cfg.succ[t.id] if lab == "t"]
-        skip = cfg.reach(body, avoid=lambda x: x in sn or x is t, labels={"n", "t", "f", "loop", "exh"})
-        back = any(j == t.id for i in skip for j, _ in cfg.succ[i])
-        if back:
+    calls_wt = _mpi_calls(prog, wt)
+
+    def nodes_with(opname):
+        return [n for n in cfg.nodes if any(op == opname for c, op, k in calls_wt if any(x is c for x in ast.walk(n.expr or ast.Pass())))]
+
+    rn, sn = nodes_with("recv"), nodes_with("send")
+    if rn and sn:
+        # from a receive, no way back to a receive that avoids every send (the sentinel leaves the loop instead)
+        unanswered = None
+        for r in rn:
+            nxt = [cfg.nodes[j] for j, lab in cfg.succ[r.id] if lab != "e"]
+            skip = cfg.reach(nxt, avoid=lambda x: x in sn, labels={"n", "t", "f", "loop", "exh"})
+            if any(x.id in skip for x in rn):
+                unanswered = r
+        if unanswered is not None:
             res.violation("C06.R2", wt, wt.node, "a worker can take a task without sending a result back: the dispatcher waits for it forever", key_extra="worker-no-result")
         else:
             res.ok("C06.R2", res.site(wt), "every received task is answered by exactly one result message")
@@ -337,7 +349,12 @@ def _counting_receiver(prog, res, fi, c, k, tag, sends) -> None:
             in_body = any(y is decs[0] for s in x.body for y in ast.walk(s))
             in_else = any(y is decs[0] for s in x.orelse for y in ast.walk(s))
             is_pos = isinstance(x.test, ast.Compare) and isinstance(x.test.ops[0], (ast.Is, ast.Eq))
-            proc_other = [s for s in (x.orelse if in_body else x.body) if any(isinstance(y, ast.Call) and isinstance(y.func, ast.Attribute) and y.func.attr == "process_patches" for y in ast.walk(s))]
+            # the other branch hands the payload on (to the writer, or to the consumer of this generator)
+            proc_other = [
+                s
+                for s in (x.orelse if in_body else x.body)
+                if any((isinstance(y, ast.Call) and isinstance(y.func, ast.Attribute) and y.func.attr == "process_patches") or isinstance(y, (ast.Yield, ast.YieldFrom)) for y in ast.walk(s))
+            ]
             if ((in_body and is_pos) or (in_else and not is_pos)) and proc_other:
                 ok_branch = True
     # initial value = number of sending ranks
@@ -345,14 +362,31 @@ def _counting_receiver(prog, res, fi, c, k, tag, sends) -> None:
     src_param = init[0].id if init and isinstance(init[0], ast.Name) and init[0].id in fi.param_names() else None
     ok_init = False
     callers_checked = 0
-    if src_param:
+
+    def arg_origins(f, param, depth=3):
+        """argument expressions bound to `param` of f over all call sites (a parameter handed through is followed)"""
+        out = []
+        pos = [p for p in f.param_names() if p not in ("self", "cls")]
         for g in _mpi_funcs(prog):
             for cc in calls_in(g):
-                if fi in prog.resolve_call(g, cc).funcs():
-                    callers_checked += 1
-                    a = kwarg(cc, src_param)
-                    if a is not None and isinstance(a, ast.Call) and isinstance(a.func, ast.Name) and a.func.id == "len" and "active_ranks" in unparse(a):
-                        ok_init = True
+                if f not in prog.resolve_call(g, cc).funcs():
+                    continue
+                a = kwarg(cc, param)
+                if a is None and param in pos and pos.index(param) < len(cc.args):
+                    a = cc.args[pos.index(param)]
+                if a is None:
+                    out.append(None)
+                elif isinstance(a, ast.Name) and a.id in g.param_names() and depth > 0:
+                    out.extend(arg_origins(g, a.id, depth - 1))
+                else:
+                    out.append(a)
+        return out
+
+    if src_param:
+        origins = arg_origins(fi, src_param)
+        callers_checked = len(origins)
+        if origins and all(a is not None and isinstance(a, ast.Call) and isinstance(a.func, ast.Name) and a.func.id == "len" and "active_ranks" in unparse(a) for a in origins):
+            ok_init = True
     # every data sender sends exactly one sentinel after its data, on every path
     data = [(f, s) for f, s, kk, tg_, sen in sends if kk == k and tg_ == tag and not sen and f.module is fi.module]
     sent = [(f, s) for f, s, kk, tg_, sen in sends if kk == k and tg_ == tag and sen and f.module is fi.module]
@@ -529,8 +563,30 @@ def rule_r5(prog, res) -> None:
         res.ok("C06.R5", res.site(rt), "counter +1 with each task send, -1 with each sentinel send; every rank gets a task or a sentinel; loop runs while workers are active")
     else:
         res.violation("C06.R5", rt, fn, "dispatcher counter discipline broken: " + "; ".join(why) + " — workers are left waiting or the root stops early", key_extra="dispatcher-counter")
-    dests = [kwarg(c, "dest") for c, _ in sends]
-    if all(d is not None and unparse(d) == "rank" for d in dests):
+    # the destination is the rank of the enclosing loop: the first-pass loop variable, resp. the rank that was
+    # just received together with a result (first element of the received tuple)
+    def served_rank_names(loop) -> set:
+        names = set()
+        if isinstance(loop, ast.For):
+            names |= {x.id for x in ast.walk(loop.target) if isinstance(x, ast.Name)}
+        for x in ast.walk(loop):
+            if isinstance(x, ast.Assign) and isinstance(x.targets[0], (ast.Tuple, ast.List)) and x.targets[0].elts and isinstance(x.targets[0].elts[0], ast.Name):
+                if isinstance(x.value, ast.Call) and any(x.value is c_ for c_, op_, _k in _mpi_calls(prog, rt) if op_ == "recv"):
+                    names.add(x.targets[0].elts[0].id)
+        return names
+
+    def dest_ok(c_) -> bool:
+        d = kwarg(c_, "dest")
+        if not isinstance(d, ast.Name):
+            return False
+        cur = c_
+        while id(cur) in pm:
+            cur = pm[id(cur)]
+            if isinstance(cur, (ast.For, ast.While)):
+                return d.id in served_rank_names(cur)
+        return False
+
+    if sends and all(dest_ok(c) for c, _ in sends):
         res.ok("C06.R5", res.site(rt, "dest"), "every task / sentinel goes to the rank it is meant for")
     else:
         res.violation("C06.R5", rt, fn, "a task or sentinel is not addressed to the rank just served", key_extra="dispatcher-dest")
